@@ -344,18 +344,9 @@ def pasteToks (l r : Tok) : Option Tok :=
   let s := l.sp ++ r.sp
   if validPaste s then some { sp := s, ws := l.ws, painted := false } else none
 
-/-- white space next to a vanished placemarker: C11 does not say whether it survives -/
-def Ws.weaken : Ws → Ws
-  | .none => .none
-  | _ => .gray
-
-def weakenNext : List PItem → List PItem
-  | .tok t :: rest => .tok { t with ws := t.ws.weaken } :: rest
-  | .placemarker w :: rest => .placemarker w.weaken :: rest
-  | r => r
-
-theorem weakenNext_length (l : List PItem) : (weakenNext l).length = l.length := by
-  unfold weakenNext; split <;> simp
+/-! A placemarker vanishes, the white space written around the empty operand does not: the result of
+`x ## <empty>` is `x`, the token after the operand keeps its own white space; `<empty> ## z` is `z` with the
+white space of the operand position (gcc and clang agree; the check compares stringified expansions). -/
 
 /-- second pass: perform the pastes from left to right; `acc` is the reversed output -/
 def doPastes : List PItem → List PItem → Option (List PItem)
@@ -365,9 +356,9 @@ def doPastes : List PItem → List PItem → Option (List PItem)
     match acc with
     | lhs :: acc' =>
       match lhs, rhs with
-      | .placemarker w, .placemarker _ => doPastes (.placemarker w.weaken :: acc') (weakenNext rest)
-      | .placemarker w, .tok r => doPastes (.tok { r with ws := w.weaken } :: acc') rest
-      | .tok l, .placemarker _ => doPastes (.tok l :: acc') (weakenNext rest)
+      | .placemarker w, .placemarker _ => doPastes (.placemarker w :: acc') rest
+      | .placemarker w, .tok r => doPastes (.tok { r with ws := w } :: acc') rest
+      | .tok l, .placemarker _ => doPastes (.tok l :: acc') rest
       | .tok l, .tok r =>
         match pasteToks l r with
         | some t => doPastes (.tok t :: acc') rest
@@ -378,12 +369,16 @@ def doPastes : List PItem → List PItem → Option (List PItem)
 termination_by acc rest => rest.length
 decreasing_by
   all_goals simp_wf
-  all_goals (try rw [weakenNext_length])
   all_goals omega
 
+/-- a placemarker that is left over vanishes; white space written before it stays before the next token -/
 def dropPlacemarkers : List PItem → List Tok
   | [] => []
   | .tok t :: rest => t :: dropPlacemarkers rest
+  | .placemarker w :: rest =>
+    match dropPlacemarkers rest with
+    | [] => []
+    | t :: ts => { t with ws := if w = .space then .space else t.ws } :: ts
   | _ :: rest => dropPlacemarkers rest
 
 /-- replacement list with arguments substituted, `#` and `##` applied -/
